@@ -333,6 +333,7 @@ def case(ctx, rnd, i):
         mp = Mapping()
         mp_snap = ([], [])
         mp_len = 0
+        mp_mirror_len = 0
         nops = rnd.randint(15, 40)
         for k in range(nops):
             doc = rnd.choice(pool)
@@ -416,6 +417,11 @@ def case(ctx, rnd, i):
                             pool.append(res.doc)
                         mp.append_map(smap)
                         mp_len += 1
+                        if rnd.random() < 0.4:
+                            # as rebasing does: the inverse follows, registered as the mirror
+                            mp.append_map(smap.invert(), len(mp.maps) - 1)
+                            mp_len += 1
+                            mp_mirror_len += 2
                     else:
                         outcome = "failed"
                 elif r < 0.8:
@@ -449,7 +455,8 @@ def case(ctx, rnd, i):
                 elif r < 0.93:
                     name = "Mapping"
                     m2 = mp.copy()
-                    m2.append_map(StepMap([0, 0, 1]))
+                    free_ = [k_ for k_ in range(len(mp.maps)) if k_ not in (mp.mirror or [])]
+                    m2.append_map(StepMap([0, 0, 1]), rnd.choice(free_) if free_ and rnd.random() < 0.6 else None)
                     if len(mp.maps) != mp_len:
                         raise AssertionError("copy shares maps")
                     if rnd.random() < 0.5:
@@ -531,6 +538,9 @@ def case(ctx, rnd, i):
             if len(mp.maps) != mp_len:
                 ctx.violation("accumulator", "a Mapping that was not appended to now has %d maps instead of %d (during %s)" % (len(mp.maps), mp_len, name), det, {"which": "mapping-length"})
                 mp_len = len(mp.maps)
+            if len(mp.mirror or []) != mp_mirror_len:
+                ctx.violation("accumulator", "the mirror table of a Mapping that got no mirrored append now has %d entries instead of %d (during %s)" % (len(mp.mirror or []), mp_mirror_len, name), det, {"which": "mapping-mirror-length"})
+                mp_mirror_len = len(mp.mirror or [])
             mcur = ([id(x) for x in mp.maps], list(mp.mirror or []))
             if mcur[0][:len(mp_snap[0])] != mp_snap[0] or mcur[1][:len(mp_snap[1])] != mp_snap[1]:
                 ctx.violation("accumulator", "Mapping.maps/mirror did not only grow during %s" % name, det, {"which": "mapping"})
